@@ -14,5 +14,5 @@ Definition muc_patterns : list (bytes * bytes * bytes * bytes) :=
    (hex "4d657373616765", hex "4e6f726d616c4d657373616765", hex "687474703a2f2f6a61626265722e6f72672f70726f746f636f6c2f6d75632375736572", hex "78")].
 Definition muc_ns_user : bytes := hex "687474703a2f2f6a61626265722e6f72672f70726f746f636f6c2f6d75632375736572".
 Definition muc_presence_lookup_before_decode : bool := true.
-Definition muc_join_registers_unconditionally : bool := false.
+Definition muc_join_registers_unconditionally : bool := true.
 Definition muc_joined_returns_flag : bool := true.
